@@ -30,6 +30,121 @@ EXC = {'GlomError': glom.GlomError, 'PathAccessError': glom.PathAccessError,
        'Exception': Exception}
 
 
+# ---- hardening: hostile / odd target classes (semantics: GlomAuto ObjLike, "gen") --------------------
+class EqAll(codec.Obj):
+    """claims to be equal to everything (== is not identity)"""
+    def __eq__(self, other):
+        return True
+
+    def __ne__(self, other):
+        return False
+    __hash__ = object.__hash__
+
+
+class EqRaise(codec.Obj):
+    """comparison with anything that is not of its own class raises"""
+    def __eq__(self, other):
+        if type(other) is not type(self):
+            raise TypeError('EqRaise compared with %s' % type(other).__name__)
+        return self is other
+
+    def __ne__(self, other):
+        return not self.__eq__(other)
+    __hash__ = object.__hash__
+
+
+class SlotObj:
+    """attribute object without __dict__, falsy although it holds data"""
+    __slots__ = ('a', 'b', 'k', 'n', 'z', 'e', 'h', 'j', 'o', 'g', 'f')
+
+    def __bool__(self):
+        return False
+
+
+class OneShot:
+    """one-shot iterator with a pull counter (pulled = items actually handed out)"""
+    def __init__(self, items):
+        self._items = list(items)
+        self.pulled = 0
+
+    def __iter__(self):
+        return self
+
+    def __next__(self):
+        if self.pulled >= len(self._items):
+            raise StopIteration
+        self.pulled += 1
+        return self._items[self.pulled - 1]
+
+
+PLAIN_X = dict(codec.PLAIN, eqall=EqAll, eqraise=EqRaise)
+# second pass: every container / object class is a subclass that overrides __getitem__ / attribute access
+# (codec.LOGGING) AND is falsy whatever it holds (codec._falsy); OrderedDicts have an order of their own
+HARD_X = dict(codec.FALSY_LOGGING, eqall=codec._falsy(EqAll), eqraise=codec._falsy(EqRaise))
+
+
+def make_heap(cells, classes, fns):
+    """codec.Heap plus one-shot iterator cells ('gen'): built as a list, then swapped for a OneShot in
+    every container that refers to it"""
+    gens = [a for a, c in enumerate(cells, 1) if c['cls'] == 'gen']
+    if classes is HARD_X and all(set(k['s'] for k, _ in c['items']) <= set(SlotObj.__slots__)
+                                 for c in cells if c['cls'] == 'obj'):
+        classes = dict(classes, obj=SlotObj)          # attribute objects without __dict__
+    if not gens:
+        return codec.Heap(cells, classes, fns)
+    cells2 = [dict(cls='list', items=c['items']) if c['cls'] == 'gen' else c for c in cells]
+    heap = codec.Heap(cells2, classes, fns)
+    heap.cells = cells
+    heap._keep = []
+    for a in gens:
+        lst = heap.objs[a]
+        g = OneShot(lst)
+        for b, o in heap.objs.items():
+            if o is lst:
+                continue
+            if isinstance(o, dict):
+                for k in [k for k, v in dict.items(o) if v is lst]:
+                    dict.__setitem__(o, k, g)
+            elif isinstance(o, list):
+                for i in [i for i, v in enumerate(list.__iter__(o)) if v is lst]:
+                    list.__setitem__(o, i, g)
+            elif isinstance(o, (tuple, set, frozenset)):
+                if any(v is lst for v in tuple.__iter__(o) if isinstance(o, tuple)) :
+                    raise Unconstructible('one-shot iterator inside an immutable cell')
+            else:
+                for name in [n for n in (getattr(type(o), '__slots__', None) or vars(o).keys())
+                             if getattr_raw(o, n) is lst]:
+                    object.__setattr__(o, name, g)
+        heap._keep.append(lst)
+        del heap.ids[id(lst)]
+        heap.objs[a] = g
+        heap.ids[id(g)] = a
+    return heap
+
+
+def getattr_raw(o, n):
+    try:
+        return object.__getattribute__(o, n)
+    except AttributeError:
+        return None
+
+
+def scramble(o, depth=3):
+    """mutate what an evaluation handed out (see warm-up in observe)"""
+    if depth == 0:
+        return
+    if isinstance(o, list):
+        for x in list.__iter__(o):
+            scramble(x, depth - 1)
+        list.append(o, 'MUTATED')
+    elif isinstance(o, dict):
+        for x in list(dict.values(o)):
+            scramble(x, depth - 1)
+        dict.__setitem__(o, 'MUTATED', 'MUTATED')
+    elif isinstance(o, set):
+        set.add(o, 'MUTATED')
+
+
 # ---- the library of user callables (semantics: GlomAuto!FnApply) ---------------------------
 def mk_fns(log):
     def ident(t):
@@ -88,6 +203,14 @@ def mk_fns(log):
 
 
 # ---- abstract spec -> real glom spec ----------------------------------------------------------
+import collections
+PAIR = collections.namedtuple('PAIR', 'x y')
+
+
+def skipval(heap, v):
+    return [] if v['k'] == 'elist' else {} if v['k'] == 'edict' else heap.val(v)
+
+
 class Unconstructible(Exception):
     """the abstract tree denotes no glom spec (the constructor refuses it)"""
 
@@ -120,6 +243,8 @@ def build(ast, heap):
         return [b(k) for k in ast['kids']]
     if op == 'tuple':
         return tuple(b(k) for k in ast['kids'])
+    if op == 'ntuple':
+        return PAIR(*[b(k) for k in ast['kids']])           # a tuple subclass whose constructor takes fields
     if op == 'pipe':
         return Pipe(*[b(k) for k in ast['kids']])
     if op == 'spec':
@@ -159,9 +284,9 @@ def build(ast, heap):
         elif d['kind'] == 'factory':
             kw['default_factory'] = heap.fns[d['name']]
         if sk['kind'] == 'val':
-            kw['skip'] = heap.val(sk['v'])
+            kw['skip'] = skipval(heap, sk['v'])
         elif sk['kind'] == 'tuple':
-            kw['skip'] = tuple(heap.val(v) for v in sk['vs'])
+            kw['skip'] = tuple(skipval(heap, v) for v in sk['vs'])
         elif sk['kind'] == 'pred':
             kw['skip'] = heap.fns[sk['name']]
         if ast['skipexc'] != ['GlomError']:
@@ -192,12 +317,36 @@ def build(ast, heap):
 NO_OPTS = {'dflt': [], 'skipexc': [], 'scope': []}
 
 
-def observe(cells, root, ast, opts=NO_OPTS):
+def observe(cells, root, ast, opts=NO_OPTS, hard=False):
+    """hard: second-pass conditions.  The targets are instances of subclasses of the builtin containers that
+    override item / attribute access and are falsy whatever they hold, and the spec object has been used
+    before: it was evaluated on an equal but distinct target graph and on 0, and everything those
+    evaluations handed out was mutated.  Neither must change what the spec means now."""
     log = []
     out = []
-    heap = codec.Heap(cells, codec.PLAIN, fns=mk_fns(log))
+    fns = mk_fns(log)
+    heap = make_heap(cells, HARD_X if hard else PLAIN_X, fns)
     spec = build(ast, heap)
     target = heap.val(root)
+    if hard:
+        twin = make_heap(cells, HARD_X, fns)
+        glom.core.print = lambda *a: None
+        limit = sys.getrecursionlimit()
+        sys.setrecursionlimit(220)           # (a warm-up that recurses without end is cut short: its outcome is not used)
+        try:
+            for wt in (twin.val(root), 0):
+                try:
+                    scramble(glom.glom(wt, spec))
+                except Exception:
+                    pass
+                for _, a, kwa in log:
+                    for x in list(a) + list(kwa.values()):
+                        if id(x) not in twin.ids:
+                            scramble(x)
+                del log[:]
+        finally:
+            sys.setrecursionlimit(limit)
+            del glom.core.print
     kw = {}
     if opts['dflt']:
         kw['default'] = heap.val(opts['dflt'][0])
@@ -231,10 +380,11 @@ def observe(cells, root, ast, opts=NO_OPTS):
                      'kw': [[{'k': 'str', 's': k}, heap.project(v, fresh)] for k, v in kw.items()]})
     pout = [{'k': k, 'v': heap.project(x, fresh)} for k, x in out]
     v = heap.project(res, fresh) if ok else {'k': 'none'}
-    return {'ok': ok, 'v': v, 'exc': exc, 'log': plog, 'out': pout, 'cells': fresh['cells'], 'skip': ''}
+    gens = [[a, heap.objs[a].pulled] for a, c in enumerate(cells, 1) if c['cls'] == 'gen']
+    return {'ok': ok, 'v': v, 'exc': exc, 'log': plog, 'out': pout, 'gens': gens, 'cells': fresh['cells'], 'skip': ''}
 
 
-FIELDS = (('ok', 'outcome'), ('exc', 'error class'), ('log', 'call log'), ('out', 'Inspect reports'), ('v', 'value'),
+FIELDS = (('ok', 'outcome'), ('exc', 'error class'), ('log', 'call log'), ('out', 'Inspect reports'), ('gens', 'iterator pulls'), ('v', 'value'),
           ('cells', 'value graph'))
 
 
@@ -251,10 +401,15 @@ def nontrivial(ast):
 
 
 TARGET_HEAP = None
+# the second pass (subclassed falsy targets, spec object used before and its results mutated) costs about
+# four plain replays: the quick tier runs it on every fourth case (every second case of the hardening
+# universes), the thorough tier on every case
+SECOND_PASS_EVERY = 4
+ALWAYS_SECOND = ('q_falsy', 'q_falsyc', 'q_falsy2', 'q_hard', 'q_hardc', 'q_idx')
 
 
 def worker(states):
-    res = dict(fams={}, bad=[], samples=[])
+    res = dict(fams={}, bad=[], samples=[], n=0)
     for st in states:
         if st.get('phase') != 1:
             continue
@@ -274,9 +429,19 @@ def worker(states):
         key = 'ok' if pred['ok'] else pred['exc']
         out['outcomes'][key] = out['outcomes'].get(key, 0) + 1
         why = 'model says terminating, library hit RecursionError' if obs['skip'] else compare(pred, obs)
+        hard = False
+        res['n'] += 1
+        every = SECOND_PASS_EVERY if st['fam'] not in ALWAYS_SECOND else min(2, SECOND_PASS_EVERY)
+        if not why and res['n'] % every == 0:
+            # second pass: falsy / overriding container subclasses as targets, spec object used before
+            hard = True
+            obs = observe(TARGET_HEAP, root, ast, st['opts'], hard=True)
+            why = 'model says terminating, library hit RecursionError' if obs['skip'] else compare(pred, obs)
+            if why:
+                why = '[second pass: subclassed falsy targets, reused spec] ' + why
         if why:
             res['bad'].append(dict(why=why, case=dict(universe=st['fam'], heap=TARGET_HEAP, root=root, spec=ast,
-                                                      opts=st['opts'], pred=pred, obs=obs)))
+                                                      opts=st['opts'], hard=hard, pred=pred, obs=obs)))
         else:
             out['ok'] += 1
             if len(res['samples']) < 1 and pred['ok'] and pred['log'] and pred['cells'] and c03_gen.depth(ast) >= 3:
@@ -298,18 +463,20 @@ def record(check, n, seed):
     while len(rows) < n:
         signal.alarm(20)
         cells, root = c03_gen.rand_target(rng)
-        gen = c03_gen.Gen(rng, cells, lambda ast, tgt_obj, heap: glom.glom(tgt_obj, build(ast, heap)), mk_fns)
+        gen = c03_gen.Gen(rng, cells, lambda ast, tgt_obj, heap: glom.glom(tgt_obj, build(ast, heap)), mk_fns,
+                          make_heap=lambda cs, fns: make_heap(cs, PLAIN_X, fns))
         ast = gen.spec(root, rng.randint(2, 5))
         opts = gen.top_opts()
         try:
-            obs = observe(cells, root, ast, opts)
+            hard = rng.random() < 0.5
+            obs = observe(cells, root, ast, opts, hard=hard)
         except Unconstructible:
             continue
         if obs['skip']:
             guide_fail += 1
             continue
         obs.pop('skip')
-        rows.append(dict(heap=cells, root=root, spec=ast, opts=opts, obs=obs))
+        rows.append(dict(heap=cells, root=root, spec=ast, opts=opts, hard=hard, obs=obs))
     signal.alarm(0)
     rejects = vlib.validate_rows(check, 'Trace_C03', rows, 'random-specs')
     skipped = 0
@@ -354,16 +521,19 @@ def match_finding(f, case):
 
 # ---- universes (defined in spec/MC_C03.tla, operator Conf) ------------------------------------------
 FAMILIES = {
-    'quick': ['q_nest', 'q_pairs', 'q_leaves', 'q_coal1', 'q_coal2', 'q_calls', 'q_modes', 'q_ref',
-              'q_coaln1', 'q_coaln2', 'q_chains', 'q_inspect', 'q_scope', 'q_sets', 'q_top', 'q_refscope'],
+    'quick': ['q_nest', 'q_pairs', 'q_leaves', 'q_coal1', 'q_calls', 'q_modes', 'q_ref',
+              'q_coaln1', 'q_coaln2', 'q_chains', 'q_inspect', 'q_scope', 'q_sets', 'q_top', 'q_refscope',
+              'q_falsy', 'q_falsyc', 'q_falsy2', 'q_hard', 'q_hardc', 'q_idx'],
     'thorough': ['t_nest', 't_nest5', 't_leaves', 't_coal', 't_calls', 't_callnest', 't_modes', 't_ref',
-                 'q_coaln1', 'q_coaln2', 't_chains', 't_inspect', 't_scope', 't_sets', 't_top', 't_refscope'],
+                 'q_coaln1', 'q_coaln2', 't_chains', 't_inspect', 't_scope', 't_sets', 't_top', 't_refscope',
+                 't_falsy', 't_hard', 't_hard2', 'q_falsyc', 'q_falsy2', 'q_hardc', 'q_idx'],
 }
 # wrong mechanism variants (GlomAuto env.mut) and the small universe on which TLC must report
 # the law violated
 MUTANTS = [('tuple_skip_breaks', 'm_chain'), ('coalesce_eager', 'm_coal'), ('dict_stop_skips', 'm_dict'),
            ('invoke_first', 'm_invoke'), ('inspect_twice', 'm_inspect'), ('top_default_any', 'm_top'),
-           ('set_as_list', 'm_set'), ('sset_not_forward', 'm_scope'), ('ref_global', 'm_ref')]
+           ('set_as_list', 'm_set'), ('sset_not_forward', 'm_scope'), ('ref_global', 'm_ref'),
+           ('list_drains_after_stop', 'm_gen'), ('sentinel_by_eq', 'm_sent')]
 
 
 def tla_set(names):
@@ -429,6 +599,8 @@ def run_families(check, families):
 
 
 def main(tier, seed):
+    global SECOND_PASS_EVERY
+    SECOND_PASS_EVERY = 4 if tier == 'quick' else 1
     check = vlib.Check(PROP, tier, seed)
     t0 = time.time()
     run_families(check, FAMILIES[tier])
@@ -446,8 +618,8 @@ def main(tier, seed):
             res = vlib.run_tlc('MC_C03', cfg='MC_C03_base',
                                constants=dict(Families=tla_set([fam]), Mutant='"%s"' % name))
             mut[name] = res['violated']
-            if res['violated'] not in ('Laws', 'TopLaw'):
-                raise vlib.MachineryError('spec mutant %s: expected TLC to report Laws / TopLaw violated on %s, got %r'
+            if res['violated'] not in ('Laws', 'TopLaw', 'Once'):
+                raise vlib.MachineryError('spec mutant %s: expected TLC to report Laws / TopLaw / Once violated on %s, got %r'
                                           % (name, fam, res['violated']))
         check.extra['spec_mutants_detected_by_tlc'] = mut
     check.assumptions += [
@@ -476,9 +648,10 @@ def replay(path):
     case = v['case']
     if 'row' in case:
         case = dict(heap=case['row']['heap'], root=case['row']['root'], spec=case['row']['spec'],
-                    opts=case['row'].get('opts', NO_OPTS), pred=None, recorded=case['row']['obs'])
+                    opts=case['row'].get('opts', NO_OPTS), hard=case['row'].get('hard', False), pred=None,
+                    recorded=case['row']['obs'])
     opts = case.get('opts', NO_OPTS)
-    obs = observe(case['heap'], case['root'], case['spec'], opts)
+    obs = observe(case['heap'], case['root'], case['spec'], opts, hard=case.get('hard', False))
     print('spec   :', c03_gen.show(case['spec']))
     print('top-level:', json.dumps(opts))
     print('target :', json.dumps(case['root']), 'in heap', json.dumps(case['heap']))
